@@ -9,12 +9,16 @@ from ..core import AnalysisError, Mutant, Rule, Twin
 ID = "C17"
 INTEG = "chempy/kinetics/integrated.py"
 UTIL = "chempy/_util.py"
-ENGINES = ["E0 core"]
-TECHNIQUE = "per-backend abstract evaluation of attribute reads on the object returned by get_backend (hasattr/getattr/conditional expressions resolved against dir(math), dir(numpy), dir(sympy)) (ast)"
+ENGINES = ["E0 core", "E2 units-of-measure interpreter"]
+TECHNIQUE = ("per-backend abstract evaluation of attribute reads on the object returned by get_backend (hasattr/getattr/conditional expressions resolved against dir(math), "
+             "dir(numpy), dir(sympy)); units-of-measure abstract interpretation of every closed form with the documented dimensions of its parameters (ast)")
 CLAIM = ("Decides only the clause 'can be evaluated with each backend they advertise': every attribute read from the backend object on the path "
          "taken for numpy, math and sympy exists in that library (an eagerly evaluated getattr default counts as a read), every function "
-         "with a backend parameter obtains it through get_backend and uses no other math namespace.")
-DOES_NOT_DECIDE = ("that each expression satisfies its rate equation and initial value (needs symbolic differentiation / simplification: solver family); "
+         "with a backend parameter obtains it through get_backend and uses no other math namespace.  Additionally a necessary condition of the "
+         "rate-equation clause: with the documented dimensions of its parameters (time, concentration, first/second-order rate constant, feed ratio) "
+         "every closed form is dimensionally homogeneous, feeds only dimensionless values to exp/tanh/atanh, and returns concentrations.")
+DOES_NOT_DECIDE = ("that each expression satisfies its rate equation and initial value beyond dimensional consistency (needs symbolic differentiation / simplification: "
+                   "solver family) -- a sign flip or a changed pure number inside a homogeneous sum is not seen; "
                    "agreement of numeric values between backends")
 ASSUMPTIONS = ["dir() of the installed math, numpy and sympy is the API oracle"]
 
@@ -161,9 +165,60 @@ def r2_via_get_backend(ctx):
               UTIL + ":get_backend", "selection", "get_backend must import a named backend, default to numpy (math as fallback) and return it", node=gb)
 
 
+_T = {"time": 1}
+_C = {"amount": 1, "length": -3}
+_K1 = {"time": -1}
+_K2 = {"amount": -1, "length": 3, "time": -1}
+# documented meaning of the parameters (docstrings of integrated.py): t time; kf bimolecular, kb unimolecular rate constant; prod/major/minor, r/p, fr/fp
+# concentrations; fv feed rate / volume; k first order in unary_irrev_cstr (A -> B), second order in binary_irrev_cstr (2 A -> n B) and dimerization
+PARAM_DIMS = {
+    "dimerization_irrev": dict(t=_T, kf=_K2, initial_C=_C, t0=_T),
+    "pseudo_irrev": dict(t=_T, kf=_K2, prod=_C, major=_C, minor=_C),
+    "pseudo_rev": dict(t=_T, kf=_K2, kb=_K1, prod=_C, major=_C, minor=_C),
+    "binary_irrev": dict(t=_T, kf=_K2, prod=_C, major=_C, minor=_C),
+    "binary_rev": dict(t=_T, kf=_K2, kb=_K1, prod=_C, major=_C, minor=_C),
+    "unary_irrev_cstr": dict(t=_T, k=_K1, r=_C, p=_C, fr=_C, fp=_C, fv=_K1),
+    "binary_irrev_cstr": dict(t=_T, k=_K2, r=_C, p=_C, fr=_C, fp=_C, fv=_K1),
+}
+
+
+def r3_dimensions(ctx):
+    """units-of-measure typing of the closed forms: a necessary condition for satisfying a rate equation dc/dt = f(c)"""
+    from ..dims import Interp, opaque, mk_dim, V, dim_str
+    from ..dimrun import module_env, make_resolver
+    want = mk_dim(**_C)
+    for q, spec in PARAM_DIMS.items():
+        fn = ctx.func(INTEG, q)
+        a = INTEG + ":" + q
+        names = [x.arg for x in fn.args.args]
+        missing = [k for k in spec if k not in names]
+        if missing:
+            raise AnalysisError("%s: documented parameter(s) %s vanished; the dimension table needs review" % (q, missing))
+        params = {k: opaque(mk_dim(**d), k) for k, d in spec.items()}
+        if "backend" in names:
+            params["backend"] = V("be", name="numpy")
+        it = Interp(fn, params, module_env(ctx.repo, INTEG), make_resolver(ctx.repo, INTEG)).run()
+        for rep in it.reports:
+            if rep.kind in ("inhomogeneous", "transcendental", "dimensional-exponent"):
+                ctx.violation(a, "%s:%s" % (rep.kind, U(rep.node)[:50]), "with t in time, concentrations in amount/volume and the documented order of the rate constant: %s" % rep.msg, node=rep.node)
+        if any(r_.kind in ("inhomogeneous", "transcendental", "dimensional-exponent") for r_ in it.reports):
+            continue
+        outs = []
+        for r_ in it.returns:
+            outs += r_.items if r_.kind == "tuple" else [r_]
+        untyped = [o for o in outs if not (o.kind == "q" and o.dim is not None)]
+        if not outs or untyped:
+            raise AnalysisError("%s: the units interpreter could not type the result (%s)" % (q, it.tops[:3]))
+        if it.tops:
+            ctx.note("%s: sub-expressions left untyped (checked less, not failed): %s" % (q, it.tops[:3]))
+        bad = [o for o in outs if o.dim != want]
+        ctx.check(not bad, a, "returns-concentration", "every returned expression must be a concentration; found %s" % [dim_str(o.dim) for o in outs], node=fn)
+
+
 RULES = [
     Rule("C17-R1", r1_api, 18, "backend API availability for numpy, math, sympy"),
     Rule("C17-R2", r2_via_get_backend, 13, "backend obtained via get_backend; no other math namespace"),
+    Rule("C17-R3", r3_dimensions, 7, "closed forms are dimensionally homogeneous and return concentrations (E2, documented parameter dimensions)"),
 ]
 
 MUTANTS = [
@@ -177,3 +232,13 @@ TWINS = [
     Twin("try-except-lookup", [(INTEG, '    atanh = be.atanh if hasattr(be, "atanh") else be.arctanh\n', "    try:\n        atanh = be.atanh\n    except AttributeError:\n        atanh = be.arctanh\n")]),
     Twin("getattr-none-default", [(INTEG, 'atanh = be.atanh if hasattr(be, "atanh") else be.arctanh', 'atanh = getattr(be, "atanh", None) or be.arctanh')]),
 ]
+MUTANTS += [
+    Mutant("pseudo-irrev-rate-constant-dropped", [(INTEG, "return prod + minor * (1 - be.exp(-major * kf * t))", "return prod + minor * (1 - be.exp(-major * t))")], "C17-R3", "pseudo_irrev"),
+    Mutant("dimerization-inverse-lost", [(INTEG, "return 1 / (1 / initial_C + 2 * kf * (t - t0))", "return 1 / (initial_C + 2 * kf * (t - t0))")], "C17-R3", "dimerization_irrev"),
+    Mutant("cstr-feed-term-not-a-concentration", [(INTEG, "    x0 = fr * fv\n    x1 = fv + k\n    x2 = 1 / x1", "    x0 = fr * fv\n    x1 = fv + k\n    x2 = x1")], "C17-R3", "unary_irrev_cstr"),
+    Mutant("binary-rev-discriminant", [(INTEG, "x5 = be.sqrt(-4 * kf * (X ** 2 * kf + X * x0 + X * x1 + Z * x0) + x4 ** 2)", "x5 = be.sqrt(-4 * kf * (X ** 2 * kf + X * x0 + X * x1 + Z * x0) + x4)")], "C17-R3", "binary_rev"),
+]
+TWINS += [
+    Twin("pseudo-irrev-factored", [(INTEG, "return prod + minor * (1 - be.exp(-major * kf * t))", "return prod + minor - minor * be.exp(-(kf * major) * t)")]),
+]
+
